@@ -3,7 +3,7 @@
    written in the statement) and every label sequence [ls] the LTS of Model/Batcher.v admits from
    [init c], i.e. over every interleaving of adders, heartbeat, workers and Stop.
    History variables are stored newest-first, hence the [rev]s. *)
-From Verif Require Import Base.Sx Model.Batcher Proofs.Batcher Proofs.BatcherStatus Gen.BatcherGen.
+From Verif Require Import Base.Sx Model.Batcher Model.BatcherGlue Model.BatcherAge Proofs.Batcher Proofs.BatcherStatus Proofs.BatcherAge Gen.BatcherGen.
 From Coq Require Import List ZArith.
 Import ListNotations.
 Local Open Scope Z_scope.
@@ -175,6 +175,66 @@ Theorem c08_in_flight_status :
 Proof. intros c ls s b H. exact (inv_status_reach c ls s H b). Qed.
 Print Assumptions c08_in_flight_status.
 
+(* ---- 9. bounded staleness with the clock: the age of the OLDEST event bounds the time to seal ---------------------
+   Timed layer Model/BatcherAge.v: every label carries the time at which the driver logged it; the model keeps
+   born = time of the FIRST Add into the empty current batch (never moved by a later Add, a tick or a NotReady decision,
+   whatever the sizes of the events), seen = time of the latest decision that left the non-empty batch in place.  Guards:
+   G1 NotReady on a non-empty batch at t: t - born <= flushT + lag;  G2 a decision on a non-empty batch at t: t - seen <=
+   period + lag;  G3 OutBegin at t: t - (its Seal) <= lag.  tstep c tc s t l = the untimed step + these guards; trun = its
+   iteration over a list of (time, label).  Every clocked trace of the real Batcher is replayed through it (Differ when
+   refused) and the raw monitor M6 m_handoff measures Add -> OutBegin for every event (Violates). *)
+
+(* a timed run is a run of the LTS: all the theorems above hold of its base state *)
+Theorem c08_timed_run_is_a_run :
+  forall c tc tls s s', trun c tc s tls = Some s' -> run c (base s) (map snd tls) = Some (base s').
+Proof. exact trun_is_run. Qed.
+Print Assumptions c08_timed_run_is_a_run.
+
+(* "batch start" is the first Add into the empty batch: in every reachable timed state the timed batch mirrors the LTS's
+   current batch; its clock is off exactly when that batch is empty; otherwise born is the add time of its OLDEST event
+   (last element of the newest-first list) and no event of the batch is older *)
+Theorem c08_batch_start_is_first_add :
+  forall c tc tls s, 0 <= flushT tc + lag tc -> 0 <= lag tc -> trun c tc (tinit c) tls = Some s ->
+    map fst (tcur s) = cur_list (base s) /\
+    (cur_list (base s) = [] -> born s = None) /\
+    (cur_list (base s) <> [] ->
+       exists a e l0, born s = Some a /\ tcur s = l0 ++ [(e, a)] /\ forall p, In p (tcur s) -> a <= snd p <= tnow s).
+Proof. exact batch_start_is_first_add. Qed.
+Print Assumptions c08_batch_start_is_first_add.
+
+(* the model's own measure of the age (not the elapsed value the code reports) decides NotReady *)
+Theorem c08_not_ready_means_oldest_event_young :
+  forall c tc s t n b el tmo s' a,
+    tstep c tc s t (LNotReady n b el tmo) = Some s' -> born s = Some a -> t - a <= flushT tc + lag tc.
+Proof. exact not_ready_means_young. Qed.
+Print Assumptions c08_not_ready_means_oldest_event_young.
+
+(* tsealed s = (seq, seal time, [(event, its add time) ...]) of every sealed batch: EVERY event of EVERY sealed batch was
+   added at most flush time-out + heartbeat period + 2 lag before the Seal, for every arrival pattern and all sizes *)
+Theorem c08_oldest_age_bounds_seal :
+  forall c tc tls s, 0 <= flushT tc + lag tc -> 0 <= lag tc -> trun c tc (tinit c) tls = Some s ->
+    forall q z tevs e a, In (q, z, tevs) (tsealed s) -> In (e, a) tevs ->
+      0 <= z - a <= flushT tc + period tc + 2 * lag tc.
+Proof. exact oldest_age_bounds_seal. Qed.
+Print Assumptions c08_oldest_age_bounds_seal.
+
+(* thanded s = (seq, time of OutBegin, events with add times): what a worker hands to OutFn is a sealed batch, and every
+   event in it was added at most flush time-out + heartbeat period + 3 lag before *)
+Theorem c08_oldest_age_bounds_handoff :
+  forall c tc tls s, 0 <= flushT tc + lag tc -> 0 <= lag tc -> trun c tc (tinit c) tls = Some s ->
+    forall q h tevs, In (q, h, tevs) (thanded s) ->
+      (exists z, In (q, z, tevs) (tsealed s)) /\
+      forall e a, In (e, a) tevs -> 0 <= h - a <= flushT tc + period tc + 3 * lag tc.
+Proof. exact oldest_age_bounds_handoff. Qed.
+Print Assumptions c08_oldest_age_bounds_handoff.
+
+(* the timed records are exactly the sealed batches of the LTS (sealed_hist), in the same order *)
+Theorem c08_timed_sealed_are_the_sealed_batches :
+  forall c tc tls s, trun c tc (tinit c) tls = Some s ->
+    map (fun r : trec => rev (map fst (snd r))) (tsealed s) = sealed_hist (base s).
+Proof. exact tsealed_are_the_sealed_batches. Qed.
+Print Assumptions c08_timed_sealed_are_the_sealed_batches.
+
 (* ---- non-vacuity ----------------------------------------------------------------------------- *)
 Definition nv_cfg : cfg :=
   {| workers := 2; maxCount := 1; maxBytes := 0; retriable := false; retry := 0; deadq := false;
@@ -197,3 +257,14 @@ Example c08_nonvacuous :
             rev (committed s) = [nv_e1; nv_e2] /\ rev (added s) = [nv_e1; nv_e2] /\
             flight s = [] /\ free s = 2 /\ crashed s = false.
 Proof. split; [vm_compute; reflexivity|]. eexists. vm_compute. repeat split; reflexivity. Qed.
+
+(* three zero-size children 30 ms apart (time-out 150 ms, lag 1 ms): sealed by the tick at 200 ms, handed over 100 us later;
+   the regression's trace - an Add at 150 ms restarted the code's timer, the code answers NotReady at 200 ms with a small
+   elapsed value - is a run of the untimed LTS and is refused by the timed layer *)
+Example c08_age_nonvacuous :
+  (exists s, trun age_cfg age_tc (tinit age_cfg) age_good = Some s /\
+             tsealed s = [(0, 200001, [(age_e 3, 60010); (age_e 2, 30010); (age_e 1, 10)])] /\
+             thanded s = [(0, 200101, [(age_e 3, 60010); (age_e 2, 30010); (age_e 1, 10)])] /\ born s = None) /\
+  (exists s, run age_cfg (init age_cfg) (map snd age_bad) = Some s) /\
+  trun age_cfg age_tc (tinit age_cfg) age_bad = None.
+Proof. exact age_nonvacuous. Qed.
